@@ -72,6 +72,11 @@ pub struct Case {
     /// (what it sent in that event is delivered all the same)
     #[serde(default)]
     pub proxy_shutdown: bool,
+    /// how the members of gate clusters get into their module's gate list: 0 as a whole (ascending, contiguous),
+    /// 1 member by member in descending order, 2 ascending but with a foreign gate after the first member,
+    /// 3 member by member starting in the middle (create_raw_gate, as a module growing a cluster would)
+    #[serde(default)]
+    pub raw_layout: u8,
 }
 
 #[derive(Debug, Clone)]
@@ -262,6 +267,27 @@ pub fn execute(case: &Case) -> (Vec<Finding>, Obs) {
         }
         // gates (clusters are created as a whole)
         let mut gates: Vec<GateRef> = Vec::new();
+        if case.raw_layout != 0 {
+            let mut seen: Vec<(usize, &str)> = Vec::new();
+            for d in case.gates.iter().filter(|d| d.size > 1) {
+                if seen.contains(&(d.owner, d.name.as_str())) {
+                    continue;
+                }
+                seen.push((d.owner, d.name.as_str()));
+                let m = sim.get(&format!("m{}", d.owner).into()).expect("module");
+                let order: Vec<usize> = match case.raw_layout {
+                    1 => (0..d.size).rev().collect(),
+                    2 => (0..d.size).collect(),
+                    _ => (0..d.size).map(|k| (k + d.size / 2) % d.size).collect(),
+                };
+                for (n, pos) in order.into_iter().enumerate() {
+                    let _ = m.create_raw_gate(&d.name, d.size, pos);
+                    if case.raw_layout == 2 && n == 0 {
+                        let _ = m.create_raw_gate(&format!("aux-{}", d.name), 1, 0);
+                    }
+                }
+            }
+        }
         for d in &case.gates {
             let path = format!("m{}", d.owner);
             let g = if d.size == 1 {
@@ -591,7 +617,8 @@ pub fn gen_case(rng: &mut Rng, k: usize, order: Option<(Vec<usize>, u32)>) -> Ca
         t += gap;
     }
     let proxy_shutdown = rng.chance(1, 3);
-    Case { modules, gates, hops, calls, sends, proxy_shutdown }
+    let raw_layout = if rng.chance(1, 3) { 1 + rng.below(3) as u8 } else { 0 };
+    Case { modules, gates, hops, calls, sends, proxy_shutdown, raw_layout }
 }
 
 fn case_hash(c: &Case) -> u64 {
@@ -656,6 +683,9 @@ pub fn cmd(args: &Args) -> Report {
             rep.count("chains_whose_third_module_shuts_down_in_the_event_of_its_last_send", 1);
         }
         rep.count("hops_total", case.hops.len() as u64);
+        if case.raw_layout != 0 && case.gates.iter().any(|d| d.size > 1) {
+            rep.count("chains_over_clusters_created_member_by_member_out_of_order", 1);
+        }
         rep.max("max_hops", case.hops.len() as u64);
         // longest run of hops without a channel (all of them are traversed within one event)
         let mut run = 0u64;
